@@ -324,6 +324,7 @@ type findingsFile struct {
 	Findings []Finding `json:"findings"`
 }
 
+// loadFindings reads /verif/known-findings/<id>.json (one committed file per property).
 func loadFindings(path, id string) map[string]Finding {
 	m := map[string]Finding{}
 	b, err := os.ReadFile(path)
@@ -332,7 +333,7 @@ func loadFindings(path, id string) map[string]Finding {
 	}
 	var f findingsFile
 	if err := json.Unmarshal(b, &f); err != nil {
-		Inconclusive("known-findings.json does not parse: %v", err)
+		Inconclusive("known-findings/%s.json does not parse: %v", id, err)
 	}
 	for _, x := range f.Findings {
 		if x.Property == id && x.Status == "open" { // a fixed entry suppresses nothing
@@ -373,7 +374,7 @@ type Report struct {
 }
 
 func NewReport(e *Env, level string) *Report {
-	return &Report{env: e, known: loadFindings(filepath.Join(e.Verif, "known-findings.json"), e.ID),
+	return &Report{env: e, known: loadFindings(filepath.Join(e.Verif, "known-findings", e.ID+".json"), e.ID),
 		viol: map[string]*violation{}, Level: level, Extra: map[string]interface{}{}}
 }
 
